@@ -54,13 +54,14 @@ inductive Act
   | poll (i : Nat)              -- waiter i runs `check_for_errors` to completion
   | stuck (i : Nat)             -- waiter i's check found the failure but Connection.close() waits for the lock
   | leave (i : Nat)             -- waiter i's call returns normally (its reply arrived)
+  | brokerReturn (ch code : Nat) -- the reader parks a returned message (AMQPMessageError) on channel ch
   | adv (d : Nat)               -- time passes
 deriving DecidableEq, Repr
 
 /-- the IO layer records a failure -/
 def record (t : T) : T :=
   let t := { t with faultAt := t.faultAt.orElse (fun _ => some t.now) }
-  if Gen.Transport.sameErrorList then { t with c := { t.c with connErrs := t.c.connErrs ++ [.conn none] } }
+  if Gen.Transport.sameErrorList && Gen.Transport.noEraseAfterIoOpen then { t with c := { t.c with connErrs := t.c.connErrs ++ [.conn none] } }
   else { t with ioErrs := t.ioErrs ++ [.conn none] }
 
 /-- time between two checks of a waiter -/
@@ -94,6 +95,13 @@ def chanOk (c : C) : Option Nat → Bool
   | some i => decide (i < c.chans.length)
   | none => true
 
+/-- does the check raise something that makes the caller close the connection (anything but a parked
+    returned-message error)? -/
+def raisesFatal (c : C) (ch : Option Nat) : Bool :=
+  match (check c ch).1 with
+  | some e => !e.isMsg
+  | none => false
+
 def active (w : Waiter) : Bool := w.result.isNone && !w.blocked
 
 def step (t : T) : Act → Option T
@@ -116,8 +124,12 @@ def step (t : T) : Act → Option T
       if active w then
         match check t.c w.chan with
         | (some e, c') =>
+          if e.isMsg then
+            -- a returned-message error met inside a reply wait is put back and the wait goes on
+            -- (`Rpc._wait_for_request`); it is raised once the reply is in
+            some { t with waiters := t.waiters.set i { w with nextPoll := t.now + period w } }
           -- a raising check runs Connection.close(), which takes the connection lock
-          if t.lockHolder = none ∨ t.lockHolder = some i then some (finish t i w (.raised e t.now) c')
+          else if t.lockHolder = none ∨ t.lockHolder = some i then some (finish t i w (.raised e t.now) c')
           else none
         | (none, c') => some { t with c := c', waiters := t.waiters.set i { w with nextPoll := t.now + period w } }
       else none
@@ -125,7 +137,7 @@ def step (t : T) : Act → Option T
   | .stuck i =>
     match t.waiters[i]? with
     | some w =>
-      if active w ∧ (check t.c w.chan).1.isSome ∧ t.lockHolder.isSome ∧ t.lockHolder ≠ some i then
+      if active w ∧ raisesFatal t.c w.chan ∧ t.lockHolder.isSome ∧ t.lockHolder ≠ some i then
         -- `Connection.check_for_errors` has already set the state to CLOSED when close() blocks
         some { t with c := { t.c with connState := closed }, waiters := t.waiters.set i { w with blocked := true } }
       else none
@@ -134,6 +146,8 @@ def step (t : T) : Act → Option T
     match t.waiters[i]? with
     | some w => if active w then some (finish t i w (.returned t.now) t.c) else none
     | none => none
+  | .brokerReturn ch code =>
+    if t.readerRunning then some { t with c := onReturn t.c ch code } else none
   | .adv d =>
     -- time may pass only up to the earliest moment a waiter is due; and a reader blocked in poll
     -- notices a dead socket before time moves on
